@@ -235,18 +235,18 @@ theorem axesScanTail_some (cfg : ScanCfg) (verdict : Bool) (m : LFilter) (body :
           exact axesLoop_opt cfg m body outer rngs inArgAxes args dLength svsF asF hx ha n (by omega) oy _ r0
 
 /-- **`axes_scan.scan(scanned, …)` on the groups is the explicit loop** -/
-theorem axesScan_opt (cfg : ScanCfg) (verdict : Bool) (m : LFilter) (body : Body α) (outer : Vars α)
+theorem axesScan_opt_checked (cfg : ScanCfg) (verdict : Bool) (m : LFilter) (body : Body α) (outer : Vars α)
     (rngs : Rngs) (init : List (Arr α)) (args : List (Arr α)) (sizes : List Nat) (dLength : Nat)
     (inArgAxes : List (Option Int))
     (hsizes : argSizes cfg.inAxes args = .ok sizes) (hdl : decideLength cfg.length sizes = .ok dLength)
     (hexp : cfg.inAxes.expand args.length = .ok inArgAxes) :
-    opt (axesScan cfg.length cfg.reverse verdict false (cfg.inAx.map (·.axis)) inArgAxes cfg.outAxes
+    opt (axesScan true cfg.length cfg.reverse verdict false (cfg.inAx.map (·.axis)) inArgAxes cfg.outAxes
         (cfg.outAx.map (·.axis)) (scanned (innerMutable m cfg.outFs) cfg.outFs body)
         (roleGroup outer cfg.inFs 0) (roleGroup outer cfg.inFs 1, init)
         (axisGroups outer cfg.inFs cfg.inAx.length)
         (splitGroups (groupDict rngs (cfg.splitRngs.map (·.1))) (cfg.splitRngs.map (·.2)) dLength) args) =
-      loopCore cfg verdict (innerMutable m cfg.outFs) body outer rngs init args inArgAxes dLength := by
-  unfold axesScan prepXs loopCore
+      loopCoreChecked cfg verdict (innerMutable m cfg.outFs) body outer rngs init args inArgAxes dLength := by
+  unfold axesScan prepXs loopCoreChecked
   cases hx : mapE groupToFront ((cfg.inAx.map (·.axis)).zip (axisGroups outer cfg.inFs cfg.inAx.length)) with
   | error e =>
     have : loopDims cfg outer rngs inArgAxes args dLength = none := by
@@ -261,7 +261,7 @@ theorem axesScan_opt (cfg : ScanCfg) (verdict : Bool) (m : LFilter) (body : Body
       simp [bind, Except.bind, this]
     | ok asF =>
       have hdims := dims_opt cfg outer rngs inArgAxes args dLength svsF asF hx ha
-      simp only [bind, Except.bind, pure, Except.pure]
+      simp only [bind, Except.bind, pure, Except.pure, Bool.not_true, Bool.false_eq_true, if_false]
       cases hd : (ScanXs.mk svsF (splitGroups (groupDict rngs (cfg.splitRngs.map (·.1))) (cfg.splitRngs.map (·.2)) dLength)
           asF).dims with
       | error e =>
@@ -290,6 +290,133 @@ theorem axesScan_opt (cfg : ScanCfg) (verdict : Bool) (m : LFilter) (body : Body
             exact axesScanTail_some cfg verdict m body outer rngs init args inArgAxes dLength svsF asF hx ha
               n hn0 hn
 
+
+/-- the loop of `simple_scan_fn`, once lax.scan has accepted `n ≥ 1` iterations -/
+theorem axesSimple_loop_opt (cfg : ScanCfg) (m : LFilter) (body : Body α) (outer : Vars α) (rngs : Rngs)
+    (inArgAxes : List (Option Int)) (args : List (Arr α)) (dLength : Nat)
+    (svsF : List (Vars α)) (asF : List (Option (Arr α) × Arr α))
+    (hx : mapE groupToFront ((cfg.inAx.map (·.axis)).zip (axisGroups outer cfg.inFs cfg.inAx.length)) = .ok svsF)
+    (ha : mapE argToFront (inArgAxes.zip args) = .ok asF)
+    (n : Nat) (hn : n ≤ dLength) (init : Vars α × List (Arr α)) (b : Vars α) :
+    opt (do
+      let res ← laxScan n cfg.reverse
+        (ScanXs.mk svsF (splitGroups (groupDict rngs (cfg.splitRngs.map (·.1))) (cfg.splitRngs.map (·.2)) dLength) asF).at
+        (scanBody (scanned (innerMutable m cfg.outFs) cfg.outFs body) b) sameStruct init
+      let outYAxes ← cfg.outAxes.expand ((res.2.head?.map (fun o => o.1.length)).getD 0)
+      let out ← collectOuts stackFront outYAxes (cfg.outAx.map (·.axis)) [] res.2
+      pure (b, res.1, out)) =
+      (loopRun (fun st i => (loopStep cfg (innerMutable m cfg.outFs) body outer rngs inArgAxes args dLength
+            b st i).map (fun r => (r.2.1, r.2.2))) sameStruct init
+          (if cfg.reverse then (List.range n).reverse else List.range n)).bind fun res =>
+      (byIndex n res.2).bind fun outs =>
+      (opt (cfg.outAxes.expand ((outs.head?.map (fun o => o.1.length)).getD 0))).bind fun outYAxes =>
+      (opt (collectOuts stackAt outYAxes (cfg.outAx.map (·.axis)) [] outs)).bind fun out =>
+      some (b, res.1, out) := by
+  rw [opt_bind, laxScan_opt]
+  have hstep : ∀ i ∈ (if cfg.reverse then (List.range n).reverse else List.range n), ∀ s,
+      opt ((ScanXs.mk svsF (splitGroups (groupDict rngs (cfg.splitRngs.map (·.1))) (cfg.splitRngs.map (·.2)) dLength)
+          asF).at i >>= scanBody (scanned (innerMutable m cfg.outFs) cfg.outFs body) b s) =
+        (loopStep cfg (innerMutable m cfg.outFs) body outer rngs inArgAxes args dLength b s i).map
+          (fun r => (r.2.1, r.2.2)) := by
+    intro i hi s
+    rw [scanBody_opt, step_eq cfg m body outer rngs inArgAxes args dLength svsF asF hx ha i
+      (by have := mem_order_lt hi; omega)]
+  rw [loopRun_congr sameStruct _ hstep]
+  cases loopRun (fun st i => (loopStep cfg (innerMutable m cfg.outFs) body outer rngs inArgAxes args dLength
+      b st i).map (fun r => (r.2.1, r.2.2))) sameStruct init
+      (if cfg.reverse then (List.range n).reverse else List.range n) with
+  | none => rfl
+  | some res =>
+    simp only [Option.bind_some]
+    cases byIndex n res.2 with
+    | none => rfl
+    | some outs =>
+      simp only [Option.map_some, Option.bind_some, opt_bind]
+      cases cfg.outAxes.expand ((outs.head?.map (fun o => o.1.length)).getD 0) with
+      | error e => rfl
+      | ok oy =>
+        simp only [opt_ok, Option.bind_some]
+        rw [collectOuts_opt stackFront stackAt stackFront_opt]
+        cases opt (collectOuts stackAt oy (cfg.outAx.map (·.axis)) [] outs) <;> rfl
+
+/-- `axes_scan.scan(…, check_constancy_invariants=False)` on the groups is the explicit loop without the
+one-time initialisation of the broadcast collections -/
+theorem axesScan_opt_simple (cfg : ScanCfg) (verdict : Bool) (m : LFilter) (body : Body α) (outer : Vars α)
+    (rngs : Rngs) (init : List (Arr α)) (args : List (Arr α)) (sizes : List Nat) (dLength : Nat)
+    (inArgAxes : List (Option Int))
+    (hsizes : argSizes cfg.inAxes args = .ok sizes) (hdl : decideLength cfg.length sizes = .ok dLength)
+    (hexp : cfg.inAxes.expand args.length = .ok inArgAxes) :
+    opt (axesScan false cfg.length cfg.reverse verdict false (cfg.inAx.map (·.axis)) inArgAxes cfg.outAxes
+        (cfg.outAx.map (·.axis)) (scanned (innerMutable m cfg.outFs) cfg.outFs body)
+        (roleGroup outer cfg.inFs 0) (roleGroup outer cfg.inFs 1, init)
+        (axisGroups outer cfg.inFs cfg.inAx.length)
+        (splitGroups (groupDict rngs (cfg.splitRngs.map (·.1))) (cfg.splitRngs.map (·.2)) dLength) args) =
+      loopCoreSimple cfg (innerMutable m cfg.outFs) body outer rngs init args inArgAxes dLength := by
+  unfold axesScan prepXs loopCoreSimple
+  cases hx : mapE groupToFront ((cfg.inAx.map (·.axis)).zip (axisGroups outer cfg.inFs cfg.inAx.length)) with
+  | error e =>
+    have : loopDims cfg outer rngs inArgAxes args dLength = none := by
+      unfold loopDims; rw [groups_front_error _ _ hx]; rfl
+    simp [bind, Except.bind, this]
+  | ok svsF =>
+    cases ha : mapE argToFront (inArgAxes.zip args) with
+    | error e =>
+      have : loopDims cfg outer rngs inArgAxes args dLength = none := by
+        unfold loopDims; rw [args_front_error _ _ ha]
+        cases opt (mapE groupDims ((cfg.inAx.map (·.axis)).zip (axisGroups outer cfg.inFs cfg.inAx.length))) <;> rfl
+      simp [bind, Except.bind, this]
+    | ok asF =>
+      have hdims := dims_opt cfg outer rngs inArgAxes args dLength svsF asF hx ha
+      simp only [bind, Except.bind, pure, Except.pure, Bool.not_false, if_true]
+      unfold axesScanSimple
+      by_cases hbc : cfg.outAxes.hasBroadcast = true
+      · simp [hbc, throw, throwThe, MonadExceptOf.throw]
+      · simp only [hbc, Bool.false_eq_true, if_false]
+        cases hd : (ScanXs.mk svsF (splitGroups (groupDict rngs (cfg.splitRngs.map (·.1))) (cfg.splitRngs.map (·.2)) dLength)
+            asF).dims with
+        | error e =>
+          rw [hd] at hdims
+          simp only [opt_error] at hdims
+          rw [← hdims]
+          simp [bind, Except.bind]
+        | ok dims =>
+          rw [hd] at hdims
+          simp only [opt_ok] at hdims
+          rw [← hdims]
+          simp only [Option.bind_some]
+          cases hj : jaxLength cfg.length dims with
+          | error e => simp [bind, Except.bind, hj]
+          | ok n =>
+            simp only [bind, Except.bind, hj, opt_ok, Option.bind_some]
+            by_cases hn0 : n = 0
+            · simp [hn0, throw, throwThe, MonadExceptOf.throw]
+            · simp only [hn0, if_false]
+              have hn := n_eq_dLength cfg outer rngs inArgAxes args sizes dLength dims n hsizes hdl hexp
+                hdims.symm hj
+              exact axesSimple_loop_opt cfg m body outer rngs inArgAxes args dLength svsF asF hx ha n
+                (by omega) _ _
+
+/-- **`axes_scan.scan(scanned, …)` on the groups is the explicit loop**, for both values of
+`check_constancy_invariants` -/
+theorem axesScan_opt (cfg : ScanCfg) (verdict : Bool) (m : LFilter) (body : Body α) (outer : Vars α)
+    (rngs : Rngs) (init : List (Arr α)) (args : List (Arr α)) (sizes : List Nat) (dLength : Nat)
+    (inArgAxes : List (Option Int))
+    (hsizes : argSizes cfg.inAxes args = .ok sizes) (hdl : decideLength cfg.length sizes = .ok dLength)
+    (hexp : cfg.inAxes.expand args.length = .ok inArgAxes) :
+    opt (axesScan cfg.checkConst cfg.length cfg.reverse verdict false (cfg.inAx.map (·.axis)) inArgAxes cfg.outAxes
+        (cfg.outAx.map (·.axis)) (scanned (innerMutable m cfg.outFs) cfg.outFs body)
+        (roleGroup outer cfg.inFs 0) (roleGroup outer cfg.inFs 1, init)
+        (axisGroups outer cfg.inFs cfg.inAx.length)
+        (splitGroups (groupDict rngs (cfg.splitRngs.map (·.1))) (cfg.splitRngs.map (·.2)) dLength) args) =
+      loopCore cfg verdict (innerMutable m cfg.outFs) body outer rngs init args inArgAxes dLength := by
+  unfold loopCore
+  cases hcc : cfg.checkConst with
+  | true =>
+    simp only [if_true]
+    exact axesScan_opt_checked cfg verdict m body outer rngs init args sizes dLength inArgAxes hsizes hdl hexp
+  | false =>
+    simp only [Bool.false_eq_true, if_false]
+    exact axesScan_opt_simple cfg verdict m body outer rngs init args sizes dLength inArgAxes hsizes hdl hexp
 
 /-- **`lift.scan` is the explicit loop** (success and result; which error is raised is not compared) -/
 theorem liftScan_opt (cfg : ScanCfg) (verdict : Bool) (body : Body α) (scopeMut : LFilter) (outer : Vars α)
@@ -320,7 +447,7 @@ theorem liftScan_opt (cfg : ScanCfg) (verdict : Bool) (body : Body α) (scopeMut
         have hmain := axesScan_opt cfg verdict scopeMut body outer rngs init args sizes dLength inArgAxes
           hsizes hdl hexp
         rw [← hmain]
-        cases axesScan cfg.length cfg.reverse verdict false (cfg.inAx.map (·.axis)) inArgAxes cfg.outAxes
+        cases axesScan cfg.checkConst cfg.length cfg.reverse verdict false (cfg.inAx.map (·.axis)) inArgAxes cfg.outAxes
             (cfg.outAx.map (·.axis)) (scanned (innerMutable scopeMut cfg.outFs) cfg.outFs body)
             (roleGroup outer cfg.inFs 0) (roleGroup outer cfg.inFs 1, init)
             (axisGroups outer cfg.inFs cfg.inAx.length)
